@@ -112,7 +112,8 @@ fn main() {
             panic_msg = Some(msg.lock().unwrap().clone().unwrap_or_else(|| "panic".into()));
         }
     }
-    let invalid = !inp.assume_failed.is_empty() || inp.underflow;
+    // missing values read as zero bytes: any check that fails natively under satisfied assumptions is real
+    let invalid = !inp.assume_failed.is_empty();
     let violated = !invalid && (!inp.failed.is_empty() || panic_msg.is_some());
     println!(
         "{{\"violated\":{},\"roles\":{},\"panic\":{},\"assume_failed\":{},\"underflow\":{},\"covered\":{}}}",
